@@ -256,7 +256,7 @@ comp_ob("heap_ops", "h_heap_ops", {"C11": "quick", "C03": "quick", "C10": "quick
 
 # ------------------------------------------------------------------------------- expand.c block-level checks
 EXP_ASM = ["codec entry points (parse/scan/retrieve/decode/emit) replaced by contract stubs", "scheduler lock and I/O threads stubbed (single-threaded query); heap helpers replaced by a bag with correct head extraction (real helpers: heap_ops)"]
-add("reorder_checks", "h_expand.c", "h_reorder_checks", {"C05": "quick", "C15": "quick", "C07": "quick", "C06": "quick"}, cbmc=["--unwind", "20"], backend="kissat", timeout=300, mem_gb=6,
+add("reorder_checks", "h_expand.c", "h_reorder_checks", {"C05": "quick", "C15": "quick", "C07": "quick", "C06": "quick", "C10": "quick", "C13": "quick", "C09": "quick"}, cbmc=["--unwind", "20"], backend="kissat", timeout=300, mem_gb=6,
     functions=["src/expand.c:do_reorder", "src/expand.c:can_reorder", "src/expand.c:init", "src/process.h:deque/pqueue macros"],
     witnesses=["fatal_error_reported", "bogus_candidate_dropped", "partial_block_written", "block_accepted"],
     bounds="one finished output block against one parsed block header; positions, both CRCs, block size, status (every enum value) and level symbolic (complete for this step)",
@@ -283,7 +283,7 @@ add("emit_step_long", "h_emit.c", "h_emit_step", {"C09": "quick", "C05": "thorou
 
 # one prefix symbol of the MTF-value stage (run accumulation, flush, block overflow, end-of-block checks)
 for _sy, _nm in enumerate(("runa", "runb", "byte", "eob")):
-    add("symbol_step_" + _nm, "h_tree.c", "h_symbol_step", {"C05": "quick", "C06": "quick", "C07": "quick"},
+    add("symbol_step_" + _nm, "h_tree.c", "h_symbol_step", {"C05": "quick", "C06": "quick", "C07": "quick", "C13": "quick"},
         defines=["-DVERIF_MAX_CODE_LENGTH=4", "-DVERIF_HUFF_START_WIDTH=2", "-DVERIF_MAX_BLOCK_SIZE=4", "-DNA=5", "-DSYM=%d" % _sy], extra_src=["crctab.c"],
         cbmc=["--unwind", "18", "--unwindset", "h_symbol_step.0:257,h_symbol_step.2:65"], backend="kissat", timeout=300, mem_gb=4,
         functions=["src/decode.c:retrieve (state S_PREFIX: symbol lookup, zero-run accumulation, run flush, end-of-block checks)", "src/decode.c:mtf_one", "src/decode.c:make_tree"],
